@@ -70,6 +70,40 @@ impl Ctx {
         }
     }
 
+    /// the document that `doc_with(field, s)` is MEANT to be, assembled without the library touching `s`: the
+    /// JSON form of the same document built around a harmless placeholder, with the placeholder replaced by `s`
+    /// in every string and member name
+    pub fn intended_json(field: &str, s: &str) -> Value {
+        const PH: &str = "ZZPLACEHOLDERZZ";
+        fn subst(v: &Value, s: &str) -> Value {
+            match v {
+                Value::String(t) => Value::String(t.replace(PH, s)),
+                Value::Array(a) => Value::Array(a.iter().map(|x| subst(x, s)).collect()),
+                Value::Object(o) => Value::Object(o.iter().map(|(k, x)| (k.replace(PH, s), subst(x, s))).collect()),
+                other => other.clone(),
+            }
+        }
+        subst(&serde_json::to_value(doc_with(field, PH)).unwrap(), s)
+    }
+
+    /// a document signed by a reference implementation (raw ed25519 over the reference bytes of the intended
+    /// JSON) must verify here once it is read from its text
+    pub fn check_reference_signed(&self, intended: &Value) -> String {
+        let reference = olpc_bytes(intended);
+        let sig_ref = self.raw.sign(&reference);
+        let text = json!({"signatures": [{"keyid": keys::kid_str(self.sk.key_id()), "sig": data_encoding::HEXLOWER.encode(sig_ref.as_ref())}],
+                          "signed": intended}).to_string();
+        let r = guarded(|| match serde_json::from_str::<Metablock>(&text) {
+            Ok(b) => b.verify(1, [self.sk.public()]).map(|_| ()).map_err(|e| e.to_string()),
+            Err(e) => Err(format!("does not parse: {e}")),
+        });
+        match r {
+            Ok(Ok(())) => "ok".to_string(),
+            Ok(Err(e)) => format!("err: {e}"),
+            Err(p) => format!("panic: {p}"),
+        }
+    }
+
     /// checks (1) a signature made directly over the reference bytes is accepted, (2) the library's own
     /// (deterministic, ed25519) signature equals it
     pub fn check_doc(&self, meta: &MetadataWrapper) -> (String, bool) {
@@ -172,6 +206,18 @@ impl Ctx {
                 outs.push(o);
             }
             same_all &= same;
+            // ... and against the document as INTENDED (not as the library's own JSON form has it): signed by a
+            // reference implementation it verifies here, and the library signs those very bytes
+            let intended = Self::intended_json(field, &s);
+            let o2 = self.check_reference_signed(&intended);
+            if o2 != "ok" && !outs.contains(&o2) {
+                outs.push(o2);
+            }
+            let own = guarded(|| Metablock::new(meta.clone(), &[&self.sk]));
+            let want = self.raw.sign(&olpc_bytes(&intended));
+            if !matches!(&own, Ok(Ok(mb)) if mb.signatures.len() == 1 && mb.signatures[0].value().as_bytes() == want.as_ref()) {
+                same_all = false;
+            }
             sample = s;
         }
         json!({"outs": outs, "same_sig": same_all, "atoms_ok": atoms_ok, "sample": sample})
